@@ -274,6 +274,7 @@ fn all_sequences(alphabet: &[Op], max_len: usize) -> Vec<Vec<Op>> {
 fn case(file: &[u8], visible0: usize, ops: &[Op], cfg: &Config) -> J {
     J::obj().set("file", J::s(&hex(file))).set("visible0", J::i(visible0 as u64)).set("ops", J::s(&rops::ops_string(ops)))
         .set("flags", J::i(cfg.flags)).set("opts", J::s(&opts_string(&cfg.opts))).set("limit", J::i(cfg.limit.map(|l| l as i64).unwrap_or(-1)))
+        .set("via_setters", J::Bool(cfg.via_setters))
 }
 
 fn case_cfg(case: &J) -> (Vec<u8>, usize, Vec<Op>, Config) {
@@ -289,11 +290,12 @@ fn case_cfg(case: &J) -> (Vec<u8>, usize, Vec<Op>, Config) {
     }
     let l = case.get("limit").and_then(|f| f.as_i64()).unwrap_or(-1);
     cfg.limit = if l >= 0 { Some(l as usize) } else { None };
+    cfg.via_setters = matches!(case.get("via_setters"), Some(J::Bool(true)));
     (file, v, ops, cfg)
 }
 
 /// compare many runs with the model in one batch; `domain[i]` says whether a disagreement is a violation or a gap
-fn model_batch(ctx: &mut Ctx, runs: &[(Vec<u8>, usize, Vec<Op>, Config, bool)], traces: &[Trace], class: &str) {
+pub(crate) fn model_batch(ctx: &mut Ctx, runs: &[(Vec<u8>, usize, Vec<Op>, Config, bool)], traces: &[Trace], class: &str) {
     let lines: Vec<String> = runs.iter().map(|(f, v, ops, cfg, _)| rops::model_line(f, *v, ops, cfg)).collect();
     let answers = model::ask(&lines);
     for (i, (f, v, ops, cfg, dom)) in runs.iter().enumerate() {
@@ -465,6 +467,7 @@ pub fn run_c09(ctx: &mut Ctx) {
         let filec = file.clone();
         let expc = exp.clone();
         let bits_pp = samples(a.color) * a.depth as usize;
+        let (want_actl, first_in_animation) = ((a.frames.len() as u32, a.plays), a.default_image.is_none());
         let res = guarded(move || -> Vec<(String, String)> {
             let mut problems = vec![];
             let dec = png::Decoder::new(std::io::Cursor::new(filec));
@@ -472,6 +475,15 @@ pub fn run_c09(ctx: &mut Ctx) {
                 Ok(r) => r,
                 Err(e) => return vec![("rejected".into(), format!("read_info failed on a valid APNG: {}", e))],
             };
+            // the public accessors of Info (oracle only: compared with the parameters the file was built from)
+            let got_actl = rd.info().animation_control().map(|c| (c.num_frames, c.num_plays));
+            if got_actl != Some(want_actl) {
+                problems.push(("accessors/animation_control".into(), format!("Info::animation_control() is {:?} after read_info, the acTL written says {:?}", got_actl, want_actl)));
+            }
+            // is_animated() = an animation is declared and a frame of it has been reached
+            if rd.info().is_animated() != first_in_animation {
+                problems.push(("accessors/is_animated".into(), format!("Info::is_animated() is {} after read_info (IDAT image {} the animation)", rd.info().is_animated(), if first_in_animation { "is the first frame of" } else { "is not part of" })));
+            }
             let size = rd.output_buffer_size();
             for (k, e) in expc.iter().enumerate() {
                 let mut buf = vec![prefill; size];
@@ -488,6 +500,13 @@ pub fn run_c09(ctx: &mut Ctx) {
                             problems.push(("output-info".into(), format!("frame {}: OutputInfo {}x{} line {} but the frame is {}x{} line {}", k, oi.width, oi.height, oi.line_size, e.w, e.h, line)));
                         }
                         let fc = rd.info().frame_control;
+                        if rd.info().is_animated() != e.fc.is_some() || rd.info().animation_control().map(|c| (c.num_frames, c.num_plays)) != Some(want_actl) {
+                            problems.push(("accessors/is_animated".into(), format!("frame {}: Info::is_animated() is {} and animation_control() {:?}; the frame {} a frame control, acTL written {:?}", k, rd.info().is_animated(),
+                                rd.info().animation_control().map(|c| (c.num_frames, c.num_plays)), if e.fc.is_some() { "has" } else { "has not" }, want_actl)));
+                        }
+                        if rd.info().frame_control().map(|g| (g.sequence_number, g.width, g.height, g.x_offset, g.y_offset)) != fc.map(|g| (g.sequence_number, g.width, g.height, g.x_offset, g.y_offset)) {
+                            problems.push(("accessors/frame_control".into(), format!("frame {}: Info::frame_control() {:?} differs from the field {:?}", k, rd.info().frame_control(), fc)));
+                        }
                         match (&e.fc, fc) {
                             (Some(w), Some(g)) => {
                                 if (g.sequence_number, g.width, g.height, g.x_offset, g.y_offset, g.delay_num, g.delay_den, g.dispose_op as u8, g.blend_op as u8)
@@ -781,7 +800,17 @@ pub fn run_c18(ctx: &mut Ctx) {
         cfgs.push(Config { flags: *r.pick(&[1u8, 5, 4, 3]), ..Config::default() });
     }
     let alphabet = [Op::NextFrame(0), Op::NextRow, Op::ReadRow, Op::NextFrameInfo, Op::Finish];
-    let conts = all_sequences(&alphabet, ctx.n(3, 4));
+    let mut conts = all_sequences(&alphabet, ctx.n(3, 4));
+    // next_frame with a buffer that is too short (0 / 1 / size-1 bytes): before the terminal event it is refused (or reports
+    // the fatal error it runs into), after it it is one more call that must return an error and revive nothing.  The Lean
+    // Reader model has no such call: these continuations are judged by the oracle only.
+    for k in 0..3u8 {
+        conts.push(vec![Op::ShortFrame(k)]);
+        conts.push(vec![Op::ShortFrame(k), Op::NextFrame(0)]);
+        conts.push(vec![Op::ShortFrame(k), Op::NextRow, Op::ReadRow]);
+        conts.push(vec![Op::NextFrame(0), Op::ShortFrame(k), Op::NextFrame(0)]);
+        conts.push(vec![Op::ShortFrame(k), Op::Finish, Op::ShortFrame((k + 1) % 3), Op::NextFrameInfo]);
+    }
     let prefixes: Vec<Vec<Op>> = vec![
         vec![Op::ReadInfo],
         vec![Op::ReadInfo, Op::NextFrame(0)],
@@ -804,6 +833,9 @@ pub fn run_c18(ctx: &mut Ctx) {
                 k += 1;
                 ctx.rep.eval(!c.is_empty(), fnv64(&f.bytes) ^ fnv64(rops::ops_string(&ops).as_bytes()));
                 ctx.rep.count("file", &f.source);
+                if has_short(&ops) {
+                    ctx.rep.count("too-short next_frame buffer (oracle only, no model)", &f.source);
+                }
                 watchdog::enter(&format!("c18 {} {}", rops::ops_string(&ops), hex(&f.bytes)));
                 let t = rops::run_ops(&f.bytes, f.bytes.len(), &ops, &cfg);
                 watchdog::leave();
@@ -824,7 +856,7 @@ pub fn run_c18(ctx: &mut Ctx) {
                             let et = t.err_texts.get(ti).cloned().unwrap_or_default();
                             let slug: String = et.chars().take_while(|c| !c.is_ascii_digit() && *c != ':' && *c != '(' && *c != ';').collect::<String>().trim().to_lowercase().replace(' ', "-");
                             let slug: String = slug.chars().take(48).collect();
-                            let mut opname = match ops.get(j) { Some(Op::NextFrame(_)) => "next_frame", Some(Op::NextRow) => "next_row", Some(Op::ReadRow) => "read_row", Some(Op::NextFrameInfo) => "next_frame_info", Some(Op::Finish) => "finish", _ => "other" };
+                            let mut opname = match ops.get(j) { Some(Op::NextFrame(_)) => "next_frame", Some(Op::ShortFrame(_)) => "next_frame-short-buffer", Some(Op::NextRow) => "next_row", Some(Op::ReadRow) => "read_row", Some(Op::NextFrameInfo) => "next_frame_info", Some(Op::Finish) => "finish", _ => "other" };
                             if tok.starts_with("frame(") {
                                 // which frame is it?  A later frame of the file, exactly as obtained by skipping the failed one
                                 // (D19: the error is not sticky) - or pixels that belong to no frame of the file
@@ -858,7 +890,7 @@ pub fn run_c18(ctx: &mut Ctx) {
                 if f.model_domain && frames > nframes {
                     ctx.rep.violation("oracle", "fabricated-frame", &format!("[{}]: {} frames delivered, the file has {}", rops::ops_string(&ops), frames, nframes), case(&f.bytes, f.bytes.len(), &ops, &cfg));
                 }
-                if k % ctx.n(40, 12) == 0 && (cfg.limit.is_none() || f.model_domain) {
+                if k % ctx.n(40, 12) == 0 && (cfg.limit.is_none() || f.model_domain) && !has_short(&ops) {
                     runs.push((f.bytes.clone(), f.bytes.len(), ops.clone(), cfg.clone(), true));
                     traces.push(t);
                 }
@@ -1195,7 +1227,7 @@ fn run_with_retries(file: &[u8], visible0: usize, script: &[Op], sched: usize, b
                 },
                 Op::NextFrameInfo => match reader.as_mut() { Some(r) => r.next_frame_info().map(|_| true), None => Ok(false) },
                 Op::Finish => match reader.as_mut() { Some(r) => r.finish().map(|_| true), None => Ok(false) },
-                Op::Grow(_) => Ok(true),
+                Op::Grow(_) | Op::ShortFrame(_) => Ok(true),
             });
             match res {
                 Err(p) => return (ops, Err(("panic".into(), p))),
@@ -1299,7 +1331,17 @@ pub fn run_c02(ctx: &mut Ctx) {
             cfg.limit = *r.pick(&[None, None, Some(64 * 1024), Some(1 << 20)]);
             if r.chance(1, 5) {
                 cfg.opts = [r.bool(), r.bool(), r.bool(), r.bool(), r.bool()];
+                // half of the option sets the public setters of `Decoder` can express are installed through them
+                // (`ignore_checksums`, `set_ignore_text_chunk`, `set_ignore_iccp_chunk`); the model line is the same
+                if r.bool() {
+                    cfg.opts[4] = true;
+                    if !cfg.opts[0] && cfg.opts[1] {
+                        cfg.opts[0] = true;
+                    }
+                    cfg.via_setters = true;
+                }
             }
+            ctx.rep.count("options route", if cfg.via_setters { "Decoder setters" } else { "DecodeOptions" });
             let calls = ops.iter().filter(|o| !matches!(o, Op::Grow(_) | Op::ReadInfo | Op::ReadHeader)).count();
             ctx.rep.eval(calls >= 2, fnv64(&f.bytes) ^ fnv64(rops::ops_string(&ops).as_bytes()) ^ ((cfg.flags as u64) << 56));
             ctx.rep.count("source", &f.source);
@@ -1320,7 +1362,7 @@ pub fn run_c02(ctx: &mut Ctx) {
             }
             if k % ctx.n(25, 10) == 0 && f.bytes.len() < 2500 && ops.len() < 60 {
                 let dom = f.model_domain;
-                runs.push((f.bytes.clone(), v0, ops.clone(), Config { opts: cfg.opts, limit: cfg.limit, flags: cfg.flags }, dom));
+                runs.push((f.bytes.clone(), v0, ops.clone(), cfg.clone(), dom));
                 traces.push(t);
             }
         }
@@ -1331,6 +1373,182 @@ pub fn run_c02(ctx: &mut Ctx) {
     model_batch(ctx, &runs, &traces, "c02");
     directed_probes(ctx);
     systematic_families(ctx);
+    short_buffer_calls(ctx);
+}
+
+// ------------------------------------------------------------------------------------------------
+// next_frame with a buffer that is too short (oracle only: the Lean Reader model has no such call)
+
+fn has_short(ops: &[Op]) -> bool {
+    ops.iter().any(|o| matches!(o, Op::ShortFrame(_)))
+}
+
+/// The call sequence that must behave like `ops` on a valid file delivered whole, with every too-short `next_frame` removed:
+/// a refused call made while a frame is open is dropped; a refused call made between two frames has advanced to the next
+/// frame before it looked at the buffer, which is what `next_frame_info` does there - it is replaced by that call.
+/// Which of the two applies is read off the results of the calls before it.  Returns the sequence and, per position of
+/// `ops`, the position of the same call in it (None for the refused calls).
+fn without_short_calls(ops: &[Op], tokens: &[String], nframes: usize) -> (Vec<Op>, Vec<Option<usize>>) {
+    let mut out: Vec<Op> = vec![];
+    let mut map: Vec<Option<usize>> = vec![];
+    let mut started = 0usize; // frames whose data sequence has been entered
+    let mut closed = true; // no frame is open
+    for (i, op) in ops.iter().enumerate() {
+        let tok = tokens.get(i).map(|s| s.as_str()).unwrap_or("");
+        match op {
+            Op::ShortFrame(_) => {
+                if started > 0 && closed && started < nframes {
+                    out.push(Op::NextFrameInfo);
+                    started += 1;
+                    closed = false;
+                }
+                map.push(None);
+                continue;
+            }
+            Op::ReadInfo if tok == "hdr" => {
+                started = 1;
+                closed = false;
+            }
+            Op::NextFrame(_) if tok.starts_with("frame(") => {
+                if closed {
+                    started += 1;
+                }
+                closed = true;
+            }
+            Op::NextRow | Op::ReadRow if tok == "none" => closed = true,
+            Op::NextFrameInfo if tok.starts_with("fc(") => {
+                started += 1;
+                closed = false;
+            }
+            Op::Finish if tok == "ok" => {
+                started = nframes.max(started);
+                closed = true;
+            }
+            _ => {}
+        }
+        map.push(Some(out.len()));
+        out.push(op.clone());
+    }
+    (out, map)
+}
+
+/// oracle for one run that contains too-short `next_frame` calls; `valid_whole` = a valid file, delivered whole, with
+/// `nframes` frames.  Returns (class key, description) per finding.
+fn short_frame_findings(file: &[u8], v0: usize, ops: &[Op], cfg: &Config, valid_whole: bool, nframes: usize) -> Vec<(String, String)> {
+    let mut out = vec![];
+    let t = rops::run_ops(file, v0, ops, cfg);
+    if t.panicked {
+        let site = t.tokens.last().cloned().unwrap_or_default();
+        out.push((format!("panic/{}", panic_key(&site)), format!("[{}]: {}", rops::ops_string(ops), site)));
+        return out;
+    }
+    for (i, op) in ops.iter().enumerate() {
+        if let (Op::ShortFrame(k), Some(tok)) = (op, t.tokens.get(i)) {
+            if !tok.starts_with("err(") {
+                out.push((format!("short-buffer/{}", tok.split('(').next().unwrap_or("?")), format!("[{}]: call {} (next_frame with a buffer of kind {} that is too short) returned `{}`", rops::ops_string(ops), i, k, tok)));
+                return out;
+            }
+            if valid_whole && tok != "err(parameter)" {
+                out.push(("short-buffer/not-a-parameter-error".to_string(), format!("[{}]: call {} (too-short buffer, valid file) returned `{}`", rops::ops_string(ops), i, tok)));
+                return out;
+            }
+        }
+    }
+    if !valid_whole {
+        return out;
+    }
+    // the refused calls leave no trace in what the other calls return
+    let (plain, map) = without_short_calls(ops, &t.tokens, nframes);
+    let t0 = rops::run_ops(file, v0, &plain, cfg);
+    for (i, m) in map.iter().enumerate() {
+        if let Some(j) = m {
+            let (a, b) = (t.tokens.get(i), t0.tokens.get(*j));
+            if a != b {
+                out.push(("short-buffer/disturbs-following-calls".to_string(), format!("[{}]: call {} returns `{}`; in the same sequence without the refused calls [{}] it returns `{}`", rops::ops_string(ops), i,
+                    a.map(|s| s.as_str()).unwrap_or("(missing)"), rops::ops_string(&plain), b.map(|s| s.as_str()).unwrap_or("(missing)"))));
+                return out;
+            }
+        }
+    }
+    if t.tail != t0.tail {
+        out.push(("short-buffer/disturbs-reader-state".to_string(), format!("[{}]: final state `{}`; without the refused calls [{}]: `{}`", rops::ops_string(ops), cut(&t.tail), rops::ops_string(&plain), cut(&t0.tail))));
+    }
+    out
+}
+
+/// `Reader::next_frame` with a buffer of 0 / 1 / size-1 bytes in every reader state: (a) in front of every regular
+/// `next_frame` of a call sequence - the results of all other calls and the final state must be exactly those of the
+/// sequence without the refused calls; (b) at every position of a call sequence - the same, where a refused call made
+/// between two frames counts as the `next_frame_info` it has performed before it looked at the buffer; (c) on failing
+/// files and on inputs that end temporarily: an error, no panic, nothing written to the buffer
+fn short_buffer_calls(ctx: &mut Ctx) {
+    let mut rng = ctx.rng.fork(0x5b0f);
+    let mut files = small_valid_files(&mut rng, ctx.n(16, 48));
+    files.extend(failing_files(&mut rng, ctx.n(14, 28)));
+    files.extend(semantic_failing_files(&mut rng, ctx.n(8, 24)));
+    let alphabet = [Op::NextFrame(0x5A), Op::NextRow, Op::ReadRow, Op::NextFrameInfo, Op::Finish];
+    let short_seqs = all_sequences(&alphabet, 2);
+    for (fi, f) in files.iter().enumerate() {
+        let mut r = rng.fork(fi as u64);
+        let nframes = if f.model_domain { reference_frames(&f.bytes, 0).map(|v| v.len()).unwrap_or(0) } else { 0 };
+        let valid = f.model_domain && nframes > 0;
+        let mut bases: Vec<Vec<Op>> = short_seqs.clone();
+        for _ in 0..ctx.n(8, 30) {
+            let n = r.usize(3, 14);
+            bases.push((0..n).map(|_| r.pick(&alphabet).clone()).collect());
+        }
+        for base in &bases {
+            let mut variants: Vec<(&str, usize, Vec<Op>)> = vec![];
+            // (a) one or two refused calls in front of every regular next_frame (and one refused + one regular call at the end)
+            let mut a = vec![Op::ReadInfo];
+            for op in base {
+                if matches!(op, Op::NextFrame(_)) {
+                    for _ in 0..r.usize(1, 2) {
+                        a.push(Op::ShortFrame(r.below(3) as u8));
+                    }
+                }
+                a.push(op.clone());
+            }
+            a.push(Op::ShortFrame(r.below(3) as u8));
+            a.push(Op::NextFrame(0x5A));
+            variants.push(("before-next_frame", f.bytes.len(), a));
+            // (b) a refused call at every position
+            for at in 0..=base.len() {
+                let mut b = vec![Op::ReadInfo];
+                b.extend(base[..at].iter().cloned());
+                b.push(Op::ShortFrame(((at + fi) % 3) as u8));
+                b.extend(base[at..].iter().cloned());
+                variants.push(("at-every-position", f.bytes.len(), b));
+            }
+            // (c) the input ends temporarily
+            if base.len() >= 3 {
+                let mut c = vec![Op::ReadInfo];
+                for op in base {
+                    if r.chance(1, 3) {
+                        c.push(Op::Grow(r.usize(1, 40)));
+                    }
+                    if r.chance(1, 2) {
+                        c.push(Op::ShortFrame(r.below(3) as u8));
+                    }
+                    c.push(op.clone());
+                }
+                let idat = f.bytes.windows(4).position(|w| w == b"IDAT").map(|p| p + 4).unwrap_or(f.bytes.len());
+                variants.push(("growing-input", r.usize(idat.min(f.bytes.len()), f.bytes.len()), c));
+            }
+            for (kind, v0, ops) in variants {
+                let cfg = Config { flags: if r.chance(1, 2) { 0 } else { r.below(8) as u8 }, ..Config::default() };
+                let whole = v0 == f.bytes.len();
+                ctx.rep.eval(true, fnv64(&f.bytes) ^ fnv64(rops::ops_string(&ops).as_bytes()) ^ ((cfg.flags as u64) << 56));
+                ctx.rep.count("too-short buffer (oracle only, no model)", &format!("{}/{}", kind, if valid { "valid" } else { "failing" }));
+                watchdog::enter(&format!("c02 short v0={} {} {}", v0, rops::ops_string(&ops), hex(&f.bytes[..f.bytes.len().min(3000)])));
+                let found = short_frame_findings(&f.bytes, v0, &ops, &cfg, valid && whole, nframes);
+                watchdog::leave();
+                for (key, what) in found {
+                    ctx.rep.violation("oracle", &key, &format!("{} file, flags {}: {}", f.source, cfg.flags, what), case(&f.bytes, v0, &ops, &cfg).set("valid_frames", J::i(if valid && whole { nframes as u64 } else { 0 })));
+                }
+            }
+        }
+    }
 }
 
 /// small grammar products in which every factor is enumerated (what the random soups reach only by luck):
@@ -1553,6 +1771,24 @@ fn directed_probes(ctx: &mut Ctx) {
                     cs.push(RawChunk::new(b"IDAT", z.clone()));
                     cs.push(RawChunk::new(b"IEND", vec![]));
                     let file = serialize(&cs);
+                    // (with no effective limit and a tRNS chunk that widens the output pixels under EXPAND / ALPHA the size of the
+                    // output buffer is only known once the chunks in front of the image data have been read)
+                    if col == 0 || col == 3 {
+                        let mut cs2 = cs.clone();
+                        cs2.insert(cs2.len() - 2, RawChunk::new(b"tRNS", vec![0, 1]));
+                        let file2 = serialize(&cs2);
+                        for flags in [1u8, 5, 4] {
+                            let ops = vec![Op::ReadInfo, Op::NextRow, Op::ShortFrame(1), Op::NextFrame(0), Op::Finish];
+                            let c = Config { flags, limit: Some(1usize << 62), ..Config::default() };
+                            let t = rops::run_ops(&file2, file2.len(), &ops, &c);
+                            ctx.rep.eval(true, fnv64(&file2) ^ flags as u64 ^ 0x7125);
+                            ctx.rep.count("directed probe", "extreme-geometry-trns-unlimited");
+                            if t.panicked {
+                                let site = t.tokens.last().cloned().unwrap_or_default();
+                                ctx.rep.violation("oracle", &format!("panic/{}", panic_key(&site)), &format!("probe extreme-geometry {}x{} d{} c{} il{} with tRNS, no limit, flags {}: [{}]: {}", w, h, d, col, il, flags, rops::ops_string(&ops), site), case(&file2, file2.len(), &ops, &c));
+                            }
+                        }
+                    }
                     for (limit, flags) in [(None, 0u8), (Some(1usize << 20), 1)] {
                         let ops = vec![Op::ReadInfo, Op::NextRow, Op::ReadRow, Op::NextFrameInfo, Op::NextFrame(0), Op::NextRow, Op::Finish];
                         let mut c = Config::default();
@@ -1609,6 +1845,23 @@ pub fn replay(prop: &str, ctx: &mut Ctx, c: &J) {
         return;
     }
     let (file, v0, ops, cfg) = case_cfg(c);
+    if has_short(&ops) {
+        let nframes = c.get("valid_frames").and_then(|f| f.as_i64()).unwrap_or(0) as usize;
+        ctx.rep.eval(true, fnv64(&file));
+        println!("implementation: {}", rops::run_ops(&file, v0, &ops, &cfg).text());
+        for (key, what) in short_frame_findings(&file, v0, &ops, &cfg, nframes > 0, nframes) {
+            ctx.rep.violation("oracle", &key, &what, c.clone());
+        }
+        if prop == "C18" {
+            let t = rops::run_ops(&file, v0, &ops, &cfg);
+            if let Some(ti) = first_terminal(&t.tokens, &ops) {
+                if let Some(j) = (ti + 1..t.tokens.len()).find(|&j| !(t.tokens[j].starts_with("err(") || t.tokens[j] == "none")) {
+                    ctx.rep.violation("oracle", "success-after-terminal/replay", &format!("call {} returned `{}` after the terminal event at call {}", j, t.tokens[j], ti), c.clone());
+                }
+            }
+        }
+        return;
+    }
     let t = rops::run_ops(&file, v0, &ops, &cfg);
     ctx.rep.eval(true, fnv64(&file));
     let ans = model::ask_one(&[rops::model_line(&file, v0, &ops, &cfg)]);
